@@ -29,10 +29,12 @@ EscRec(r) ==
             THEN Bad("inverse.tokens", [toks |-> <<[t |-> "STRING", v |-> r.s]>>])
         ELSE IF ~NoRawQuote(r.e) THEN Bad("escape.noquote", Escape(r.s, r.ml))
         ELSE IF ~r.ml /\ ~NoRawBreak(r.e) THEN Bad("escape.nobreak", Escape(r.s, r.ml))
-        \* the code is the specified design: same escaped text, same run of the lexer
-        ELSE IF r.e # Escape(r.s, r.ml) THEN Bad("escape.text", Escape(r.s, r.ml))
+        \* the specified string reader recovers s from the text the code wrote, closed by the appended
+        \* quote only (how the code chooses to spell an escape is its own business)
+        ELSE IF ~(LET u == Unquote(Append(r.e, DQ), TRUE) IN u.ok /\ u.v = r.s /\ u.used = Len(r.e) + 1)
+            THEN Bad("escape.modelread", Escape(r.s, r.ml))
         ELSE IF ~r.o.esc \/ ~FoldTableOK(r.fold) THEN Bad("record.shape", 0)
-        ELSE IF ~Agrees(r, exp, "TokenSyntaxError") THEN Bad("inverse.lex", exp)
+        ELSE IF ~AgreesTV(r, exp, "TokenSyntaxError") THEN Bad("inverse.lex", exp)
         ELSE Good
 
 EmbedRec(r) ==
@@ -43,10 +45,9 @@ EmbedRec(r) ==
         k == Len(P.toks)          \* the prefix' own tokens, then (instead of its EOF) the string
     IN  IF ~(P.err = NoErrL /\ P.st.m = "Top" /\ r.o.esc /\ FoldTableOK(r.fold))
             THEN Bad("record.shape", 0)      \* the harness must embed at a token boundary
-        ELSE IF ~(Len(r.toks) >= k /\ IsString(r.toks[k], r.s) /\ SubSeq(r.toks, 1, k - 1) = SubSeq(P.toks, 1, k - 1))
+        ELSE IF ~(Len(r.toks) >= k /\ IsString(r.toks[k], r.s) /\ TV(SubSeq(r.toks, 1, k - 1)) = TV(SubSeq(P.toks, 1, k - 1)))
             THEN Bad("embed.token", [k |-> k, s |-> r.s])
-        ELSE IF r.e # Escape(r.s, r.ml) THEN Bad("escape.text", Escape(r.s, r.ml))
-        ELSE IF ~Agrees(r, exp, "TokenSyntaxError") THEN Bad("embed.lex", exp)
+        ELSE IF ~AgreesTV(r, exp, "TokenSyntaxError") THEN Bad("embed.lex", exp)
         ELSE Good
 
 \* r.s is the value the token at r.idx must have (the hostile string, or the composite value it is
@@ -57,7 +58,7 @@ LineRec(r) ==
     IN  IF ~(r.err.id = "none" /\ Len(r.toks) >= r.idx /\ IsString(r.toks[r.idx], r.s))
             THEN Bad("line.token", [idx |-> r.idx, s |-> r.s])
         ELSE IF Len(r.toks) # r.ntoks THEN Bad("line.count", r.ntoks)
-        ELSE IF ~Agrees(r, exp, "TokenSyntaxError") THEN Bad("line.lex", exp)
+        ELSE IF ~AgreesTV(r, exp, "TokenSyntaxError") THEN Bad("line.lex", exp)
         ELSE Good
 
 Verdict(r) == CASE r.k = "esc" -> EscRec(r)
